@@ -146,7 +146,7 @@ func runC17(c *eng.Ctx, tier string) {
 			return
 		}
 		// from branch: must not reach sel's block again, must reach a return
-		reSel, _ := eng.Search(task, branch.Instrs[0], nil, nil, func(x ssa.Instruction) bool { return x.Block() == sel.Block() })
+		reSel, _ := eng.SearchBlock(task, branch, nil, nil, func(x ssa.Instruction) bool { return x.Block() == sel.Block() })
 		if branch == sel.Block() {
 			reSel = sel
 		}
@@ -155,7 +155,7 @@ func runC17(c *eng.Ctx, tier string) {
 		reachesRet := false
 		if _, ok := branch.Instrs[len(branch.Instrs)-1].(*ssa.Return); ok {
 			reachesRet = true
-		} else if hit, _ := eng.Search(task, branch.Instrs[0], nil, nil, eng.IsReturn); hit != nil {
+		} else if hit, _ := eng.SearchBlock(task, branch, nil, nil, eng.IsReturn); hit != nil {
 			reachesRet = true
 		}
 		if reSel != nil || !reachesRet {
